@@ -1,1 +1,105 @@
-import HdModel.Spec.Pool
+import HdModel.Props.C14
+/-! # C03 — every request's connection acquisition terminates; nobody is stranded
+
+Step-level theorems about the pool model, valid in **every** state. Together they cover the three
+clauses of the property: waiters are released when the attempt they wait for fails or is abandoned;
+a released or served waiter resolves at its next poll; cancelling never leaves the marker behind. -/
+namespace Hd.Pool
+
+theorem dropSenders_chan (s : State) (l : List ReqId) (r : ReqId) :
+    (dropSenders s l).chan r =
+      if r ∈ l ∧ s.chan r = .empty then .txGone else s.chan r := by
+  induction l generalizing s with
+  | nil => simp [dropSenders]
+  | cons x xs ih =>
+    simp only [dropSenders]
+    rw [ih]
+    by_cases hx : r = x
+    · subst hx
+      cases hc : s.chan r <;> simp [hc, upd]
+    · cases hcx : s.chan x <;> simp [upd, hx]
+
+theorem dropSenders_connecting (s : State) (l : List ReqId) : (dropSenders s l).connecting = s.connecting := by
+  induction l generalizing s with
+  | nil => rfl
+  | cons x xs ih => simp only [dropSenders]; rw [ih]; split <;> rfl
+
+/-- **C03 (waiters are released).** When the marker's owner goes away without a connection, the
+    marker is removed, the origin's waiter queue is emptied, and every queued checkout whose channel
+    was still open sees its sender dropped – tokio wakes the receiver, and the checkout resolves
+    at its next poll (next two theorems). -/
+theorem C03_cancel_releases (s : State) (t : Token) (r : ReqId)
+    (hm : s.connecting.contains t = true) (hq : r ∈ s.waiting t) (hc : s.chan r = .empty) :
+    (cancelConnection s t).chan r = .txGone ∧ (cancelConnection s t).waiting t = [] ∧
+    (cancelConnection s t).connecting = s.connecting.erase t := by
+  unfold cancelConnection
+  simp only [hm, ↓reduceIte]
+  refine ⟨?_, by simp, ?_⟩
+  · show (dropSenders _ _).chan r = _
+    rw [dropSenders_chan]
+    simp [hq, hc]
+  · show (dropSenders _ _).connecting = _
+    rw [dropSenders_connecting]
+
+/-- The owner's drop does cancel: a checkout that owns the marker and goes away without a delayed
+    drop runs `cancel_connection` for its token. -/
+theorem C03_owner_drop_cancels (s : State) (c : Checkout) (h : c.marker = true) :
+    cancelIfOwner s c = cancelConnection s c.token := by
+  simp [cancelIfOwner, h]
+
+/-- **C03 (a released pure waiter resolves with an error instead of hanging).** -/
+theorem C03_released_waiter_resolves (s : State) (r : ReqId) (c : Checkout)
+    (hc : s.co r = some c) (ha : c.alive = true) (hw : c.waiter = .connecting) (hi : c.inner = .waiting)
+    (hch : s.chan r = .txGone) : (step s (.poll r)).2 = .err 0 := by
+  simp only [step, hc, ha]
+  have : pollCheckout s r c = (s, { c with waiter := .noPool }, .err 0) := by
+    unfold pollCheckout pollWaiter
+    simp [hw, hch, hi]
+  simp [this]
+
+/-- **C03 (a dialing checkout whose sender was dropped carries on with its own attempt).** -/
+theorem C03_released_dialer_continues (s : State) (r : ReqId) (c : Checkout)
+    (hw : c.waiter = .idle) (hch : s.chan r = .txGone) :
+    (pollWaiter s r c).2.2 = some none := by
+  simp [pollWaiter, hw, hch]
+
+/-- **C03 (quiescent progress, one checkout).** Once the attempt a checkout depends on has
+    terminated – its own dial has an outcome, and if it waits for somebody else's attempt its channel
+    has been served or released – its next poll is not `Pending`. -/
+theorem C03_resolves_when_attempt_done (s : State) (r : ReqId) (c : Checkout)
+    (hd : (s.dial r).outcome ≠ none)
+    (hw : c.waiter = .connecting → (∃ p, s.chan r = .full p) ∨ s.chan r = .txGone) :
+    (pollCheckout s r c).2.2 ≠ .pending := by
+  unfold pollCheckout
+  cases hwk : c.waiter with
+  | connecting =>
+    rcases hw hwk with ⟨p, hp⟩ | htx
+    · simp [pollWaiter, hwk, hp]
+    · simp only [pollWaiter, hwk, htx]
+      cases hi : c.inner <;> simp
+      · cases c.conn <;> simp
+      all_goals
+        cases ho : (s.dial r).outcome with
+        | none => exact absurd ho hd
+        | some o => cases o <;> simp [ho]
+  | idle =>
+    cases hch : s.chan r with
+    | full p => simp [pollWaiter, hwk, hch]
+    | _ =>
+      simp only [pollWaiter, hwk, hch]
+      cases hi : c.inner <;> simp
+      · cases c.conn <;> simp
+      all_goals
+        cases ho : (s.dial r).outcome with
+        | none => exact absurd ho hd
+        | some o => cases o <;> simp [ho]
+  | noPool =>
+    simp only [pollWaiter, hwk]
+    cases hi : c.inner <;> simp
+    · cases c.conn <;> simp
+    all_goals
+      cases ho : (s.dial r).outcome with
+      | none => exact absurd ho hd
+      | some o => cases o <;> simp [ho]
+
+end Hd.Pool
